@@ -368,7 +368,7 @@ def run_entry(entry: str, data: bytes, budget: int) -> Tuple[str, str, int]:
         finally:
             m.set_events(TID, 0)
     except WorkExceeded as e:
-        cls, detail = "work", _recursion_where(e)
+        cls, detail = "work", _work_where(e)
     except PSException as e:
         cls, detail = "family", type(e).__name__
     except AssertionError as e:
@@ -406,6 +406,19 @@ def _recursion_where(e: BaseException) -> str:
         if len(out) == 2:
             break
     return "<".join(out) if out else "?"
+
+
+def _work_where(e: BaseException) -> str:
+    """the two OUTERMOST distinct pdfminer functions below the entry point: where the budget runs out is arbitrary, the loop
+    that drives the work is not"""
+    fr = [f for f in _frames(e) if not f.startswith("high_level.")]
+    out: List[str] = []
+    for f in fr:
+        if f not in out:
+            out.append(f)
+        if len(out) == 2:
+            break
+    return ">".join(out) if out else "?"
 
 
 _BASE: Dict[Tuple[str, str], int] = {}
